@@ -27,11 +27,13 @@ RULE = ('E2 explicit-state exploration of library state: events (50: '
         'of that event alone in a fresh interpreter (one subprocess per '
         'event x switch value) and mutable members of returned objects are '
         'disjoint by id from each other and from the library. E3 schedule '
-        'exploration: 14 harnesses of 2 or 3 real threads, every executed line '
+        'exploration: 16 harnesses of 2 or 3 real threads, every executed line '
         'of pamqp a scheduling point, every schedule with <= 2 (thorough 3) '
         'preemptions; oracle: each thread\'s result equals its sequential '
-        'result; a witness harness with a toggle shows the interleavings are '
-        'real. A state is a history or a schedule; non-trivial = history of '
+        'result; the two-thread harnesses are also explored from a cold '
+        'library (fresh import before every execution, <= 1 preemption) for '
+        'first-use initialisation races; a witness harness with a toggle '
+        'shows the interleavings are real. A state is a history or a schedule; non-trivial = history of '
         'length >= 2 / schedule with >= 1 preemption.')
 BOUNDS = {'quick': {'history_depth': '2 + all a;b;a', 'threads': 2, 'preemptions': '2 (1 for the header and 3-thread harnesses)'},
           'thorough': {'history_depth': 3, 'threads': '2 and 3',
@@ -48,6 +50,7 @@ SELFTEST_TASK = ('hist', 11, 1)
 _BASE = {}
 SHARDS = 8
 MAX_BFS_STATES = 6
+COLD_SHARDS = 4
 
 
 def baselines():
@@ -80,6 +83,12 @@ def tasks(tier, seed):
         bound = HARNESSES[h][3 if tier == 'thorough' else 2]
         for k in range(SHARDS):
             out.append(('sched', h, k, bound))
+    # the same harnesses from a cold library: every execution starts from a
+    # fresh import (first-use initialisation races), <= 1 preemption
+    for h in range(len(HARNESSES)):
+        if h != WITNESS and len(HARNESSES[h][1]) == 2:
+            for k in range(COLD_SHARDS):
+                out.append(('cold', h, k, 1))
     return out
 
 
@@ -238,6 +247,7 @@ T1 = {'a': [1, {'b': 2}]}
 T2 = {'z': ['x', {'y': None}]}
 _M = c16events.M
 ACK = c16events.refcodec.enc_method_frame(_M['Basic.Ack'], (5, True), 1)[0]
+ACK2 = c16events.refcodec.enc_method_frame(_M['Basic.Ack'], (9, False), 2)[0]
 NACK = c16events.refcodec.enc_method_frame(_M['Basic.Nack'],
                                            (7, False, True), 2)[0]
 HDR1 = c16events.refcodec.enc_header_frame(
@@ -296,6 +306,15 @@ HARNESSES = [
         _call('unmarshal Basic.Ack', lambda p: _view(p.frame.unmarshal(ACK))),
         _call('unmarshal Basic.Nack',
               lambda p: _view(p.frame.unmarshal(NACK)))], 2, 3),
+    ('method decode || method decode (same class, other values)', [
+        _call('unmarshal Basic.Ack 5', lambda p: _view(p.frame.unmarshal(ACK))),
+        _call('unmarshal Basic.Ack 9', lambda p: _view(p.frame.unmarshal(
+            ACK2)))], 2, 3),
+    ('method encode || method encode (same class)', [
+        _call('marshal Basic.Ack 5', lambda p: p.frame.marshal(
+            p.commands.Basic.Ack(5, True), 1).hex()),
+        _call('marshal Basic.Ack 9', lambda p: p.frame.marshal(
+            p.commands.Basic.Ack(9, False), 2).hex())], 2, 3),
     ('method encode || method decode', [
         _call('marshal Basic.Nack', lambda p: p.frame.marshal(
             p.commands.Basic.Nack(5, True, False), 1).hex()),
@@ -347,23 +366,33 @@ HARNESSES = [
             p.decode.field_table(ENC_T1))),
         _call('Queue.Declare() mutate', _construct_mutate)], 1, 2),
 ]
-WITNESS = 12
+WITNESS = 14
 
 
 def reset_switch():
     lib.pamqp().encode.support_deprecated_rabbitmq(False)
 
 
-def explore_schedules(ctx, h, shard, bound):
+def cold_start():
+    libstate.fresh_import()
+    logging.disable(logging.CRITICAL)
+
+
+def explore_schedules(ctx, h, shard, bound, cold=False):
     name, bodies = HARNESSES[h][:2]
+    if cold:
+        name += ' [cold library]'
     reset_switch()
     logging.disable(logging.CRITICAL)
     sequential = []
     for b in bodies:
+        if cold:
+            cold_start()
         reset_switch()
         sequential.append(b())
     reset_switch()
-    runner = sched.Runner(bodies, setup=reset_switch, teardown=reset_switch)
+    runner = sched.Runner(bodies, setup=cold_start if cold else reset_switch,
+                          teardown=reset_switch)
     witness = h == WITNESS
     seen_outcomes = set()
 
@@ -373,7 +402,8 @@ def explore_schedules(ctx, h, shard, bound):
         if x.choices.count(0) != len(x.choices):
             last[:] = [list(x.choices), dict(x.results)]
         pre = x.preemptions_before(len(x.points))
-        ctx.case(('sched', h, tuple(x.choices)), pre >= 1,
+        ctx.case(('cold' if cold else 'sched', h, tuple(x.choices)),
+                 pre >= 1,
                  sample=lambda: {'harness': name, 'choices': [
                      i for i, c in enumerate(x.choices) if c],
                      'points': len(x.points), 'preemptions': pre})
@@ -407,7 +437,7 @@ def explore_schedules(ctx, h, shard, bound):
                               name, [(i, c) for i, c in
                                      enumerate(x.choices) if c],
                               short(results, 300), short(sequential, 300)),
-                          {'kind': 'sched', 'h': h,
+                          {'kind': 'sched', 'h': h, 'cold': cold,
                            'choices': list(x.choices)},
                           short(sequential, 400), short(results, 400))
         else:
@@ -434,6 +464,9 @@ def run(task, ctx):
             explore_bfs(ctx)
         elif kind == 'hist':
             explore_histories(ctx, task[1], task[2])
+        elif kind == 'cold':
+            explore_schedules(ctx, task[1], (task[2], COLD_SHARDS), task[3],
+                              cold=True)
         else:
             explore_schedules(ctx, task[1], (task[2], SHARDS), task[3])
     finally:
@@ -464,7 +497,14 @@ def replay(case, ctx):
         for b in bodies:
             reset_switch()
             seq.append(b())
-        runner = sched.Runner(bodies, setup=reset_switch,
+        cold = bool(case.get('cold'))
+        if cold:
+            seq = []
+            for b in bodies:
+                cold_start()
+                seq.append(b())
+        runner = sched.Runner(bodies,
+                              setup=cold_start if cold else reset_switch,
                               teardown=reset_switch)
         x = runner.run(case['choices'])
         results = [x.results.get(t) for t in range(len(bodies))]
